@@ -26,7 +26,7 @@ ASSUMPTIONS = [
 FAULTS = ['missing', 'empty', 'ten-bytes', 'header-only', 'half', 'one-byte-short']
 REQUIRED = {t: ['path:inline', 'path:serial', 'path:pool', 'path:cache-hit', 'workers:1', 'workers:16', 'list:rectangular', 'list:below-threshold',
                 'history:different-lists-one-process', 'fault:planted', 'fault:save-raises', 'fault:crash-during-save', 'fault:crash-during-assembly', 'object:matrix',
-                'object:load-vector', 'keys:same-text-other-curve', 'trace:checked'] + ['fault-class:' + f for f in FAULTS]
+                'object:load-vector', 'keys:same-text-other-curve', 'trace:checked', 'source:driver'] + ['fault-class:' + f for f in FAULTS]
             for t in ('quick', 'thorough')}
 TIMEOUT = {'quick': 1500, 'thorough': 7200}
 CURVES = ['UnitSquare', 'PiSquare', 'LShape', 'Circle', 'UnitInterval']
@@ -42,6 +42,9 @@ def plan(tier, seed):
     for c in ('UnitSquare', 'LShape', 'PiSquare'):
         specs.append({'name': 'm0-%s' % c, 'mode': 'm0', 'curve': c, 'rseed': seed * 107, 'workers': [1, 3, 16] if tier == 'quick' else [1, 2, 4, 7, 16]})
     specs.append({'name': 'keys', 'mode': 'keys', 'rseed': seed})
+    for p, d, r, x in [('Dirichlet', 'UnitSquare', 'anisotropic', False), ('Smooth', 'PiSquare', 'isotropic', True), ('MildSingular', 'Circle', 'anisotropic', False)]:
+        specs.append({'name': 'driver-%s-%s' % (p, d), 'mode': 'driver', 'problem': p, 'domain': d, 'refinement': r, 'exact': x,
+                      'loops': 2 if tier == 'quick' else 3})
     return specs
 
 
@@ -560,8 +563,48 @@ def run_keys(spec, acc):
         shutil.rmtree(cdir, ignore_errors=True)
 
 
+def run_driver(spec, acc):
+    """What the real driver solved with (pool assembly, its own cache directory) against per-pair / per-element evaluation."""
+    import numpy as np
+    from ..monitor import repo_frame
+    from ..workloads.driver import run_driver as drive
+    import problems
+    from src import initial_mesh as IM
+    from src.initial_potential import InitialOperator
+    from src.single_layer import SingleLayerOperator
+    argv = ['--problem', spec['problem'], '--domain', spec['domain'], '--refinement', spec['refinement'], '--no-h-h2']
+    if spec['exact']:
+        argv.append('--single-layer-exact')
+    caps, err = drive(argv, loops=spec['loops'])
+    wit0 = {'driver_argv': argv}
+    if err is not None:
+        fr = repo_frame(err)
+        if fr is None:
+            raise err
+        acc.violation('driver-raised:%s:%s' % (fr[0], type(err).__name__), 'example.py raised %s at %s:%d' % (type(err).__name__, fr[1], fr[2]), wit0)
+    data = problems.problem_helper(spec['problem'], spec['domain'])
+    for li, cap in enumerate(caps):
+        A, b, x = cap['solve']
+        elems = cap['elems']
+        SL = SingleLayerOperator(cap['mesh'], pw_exact=spec['exact'])
+        ref = per_pair(SL, elems, elems)
+        acc.case('%s|%d|matrix' % (spec['name'], li), None)
+        acc.seen('source:driver')
+        if not same_bits(A, ref):
+            acc.violation('path-differs:driver-matrix', 'loop %d: the matrix the driver solves with differs from per-pair evaluation (%d elements)' % (li, len(elems)), dict(wit0, loop=li))
+        rhs = np.zeros(len(elems))
+        if 'u0' in data:
+            M0 = InitialOperator(bdr_mesh=cap['mesh'], u0=data['u0'], initial_mesh=getattr(IM, spec['domain'] + 'BoundaryRefined'))
+            rhs = -np.array([M0.linform(e)[0] for e in elems])
+        if 'g' in data:
+            rhs = rhs + data['g-linform'](elems)
+        if not same_bits(np.asarray(b, dtype=float), rhs):
+            acc.violation('path-differs:driver-rhs', 'loop %d: the right-hand side the driver solves with differs from per-element evaluation' % li, dict(wit0, loop=li))
+    acc.sample({'driver_argv': argv, 'loops': len(caps), 'sizes': [len(c['elems']) for c in caps]}, spec['name'])
+
+
 def run_shard(spec, acc):
-    {'sched': run_sched, 'fault': run_fault, 'm0': run_m0, 'keys': run_keys}[spec['mode']](spec, acc)
+    {'sched': run_sched, 'fault': run_fault, 'm0': run_m0, 'keys': run_keys, 'driver': run_driver}[spec['mode']](spec, acc)
 
 
 def finalize(m, tier):
